@@ -129,6 +129,7 @@ def extra_for(prop, tier, seed):
     if prop == 'C07':
         out.append(native_witness('C07/native/s3_data_key_named__metadata_round_trip', 'C07', 'replay/witness/c07_reserved_keys.py', 'C07-s3-metadata-key', ['s3']))
         out.append(native_witness('C07/native/jsonpickle_tag_keys_round_trip', 'C07', 'replay/witness/c07_reserved_keys.py', 'C07-jsonpickle-tag-keys', ['tags']))
+        out.append(native_witness('C07/native/shared_reference_after_a_plain_object_round_trips', 'C07', 'replay/witness/c07_shared_after_object.py', 'C07-shared-reference-after-object'))
     if prop == 'C06':
         out.append(native_witness('C06/native/set_argument_key_is_hash_seed_independent', 'C06', 'replay/witness/c06_set_hashseed.py', 'C06-set-hash-seed'))
     if prop == 'C10':
@@ -162,7 +163,25 @@ BOUNDED = {'specs.studio.grouping': 'replay/bounded/c19_grouping.py',
            # file interception: real handlers, real files, sizes around chunk / limit boundaries
            'specs.files.intercept_file': 'replay/bounded/c20_files.py', 'specs.files.roundtrip': 'replay/bounded/c20_files.py',
            'specs.files.restore_input': 'replay/bounded/c20_files.py', 'specs.files.restore_output': 'replay/bounded/c20_files.py',
-           'specs.files.prepare_handlers': 'replay/bounded/c20_files.py'}
+           'specs.files.prepare_handlers': 'replay/bounded/c20_files.py',
+           # cassettes: round trip, independence of fetches, lookup, S3 confinement on the real classes
+           'specs.cassettes.': 'replay/bounded/c07_cassettes.py', 'specs.s3.s3_save_get': 'replay/bounded/c07_cassettes.py', 'specs.s3.s3_close': 'replay/bounded/c07_cassettes.py'}
+
+
+# native search batteries: when an obligation of these units is refuted and the counter-model has no scenario driver, the battery is run on the
+# real code to look for a CONCRETE failing input (bounded; a clean battery leaves the violation reported with no-failing-input-found)
+SEARCH = [('specs.cassettes.', 'replay/bounded/c07_cassettes.py'), ('specs.s3.s3_save_get', 'replay/bounded/c07_cassettes.py'), ('specs.s3.s3_close', 'replay/bounded/c07_cassettes.py'),
+          ('specs.s3.s3_create', 'replay/bounded/c07_cassettes.py'), ('specs.s3.facade_units', 'replay/bounded/c07_cassettes.py'), ('specs.s3.s3_category', 'replay/bounded/c07_cassettes.py'),
+          ('specs.s3.s3_id_prefixes', 'replay/bounded/c16_s3_lookup.py'), ('specs.s3.facade_iter_keys', 'replay/bounded/c16_s3_lookup.py'),
+          ('specs.s3.s3_iter_recording_ids', 'replay/bounded/c16_s3_lookup.py'), ('specs.s3.s3_prefix_iterators', 'replay/bounded/c16_s3_lookup.py'),
+          ('specs.files.', 'replay/bounded/c20_files.py'), ('specs.studio.grouping', 'replay/bounded/c19_grouping.py'), ('specs.matcher.match_all', 'replay/bounded/c07_cassettes.py')]
+
+
+def search_for(jobname):
+    for k, v in SEARCH:
+        if jobname and jobname.startswith(k):
+            return v
+    return None
 
 
 def bounded_for(jobname):
